@@ -771,24 +771,6 @@ def directDeps (D : Document) (n : String) : List String :=
   | some f => dedup (spreadNamesSet f.sel)
   | none => []
 
-/-- The breadth-first search of validateFragmentSpreads (validate_fragments.go:84-98): `i` walks
-    `toVisit`; returns `cycleFound`, or `none` when the fuel is exhausted. -/
-def cycleSearch (D : Document) (name : String) : Nat → List String → Nat → List String → Option Bool
-  | 0, _, _, _ => none
-  | fuel + 1, toVisit, i, encountered =>
-    match toVisit[i]? with
-    | none => some false
-    | some cur =>
-      let deps := directDeps D cur
-      -- inner loop over the dependencies of toVisit[i]
-      let (toVisit', enc', found) := deps.foldl (fun (st : List String × List String × Bool) dep =>
-        let (tv, enc, found) := st
-        if found then st
-        else if enc.contains dep then st
-        else if dep = name then (tv, enc, true)
-        else (tv ++ [dep], enc ++ [dep], false)) (toVisit, encountered, false)
-      if found then some true else cycleSearch D name fuel toVisit' (i + 1) enc'
-
 /-- GetPossibleTypes as a list of names (`getPossibleTypes`, validate_fragments.go:157-174). -/
 def possibleTypes (S : Schema) (n : String) : List String :=
   match kindOf S n with
@@ -835,19 +817,46 @@ def spreadsSels (S : Schema) (D : Document) (scope : Option String) : List Selec
   | s :: rest => spreadsSel S D scope s ++ spreadsSels S D scope rest
 end
 
-/-- The cycle search for every fragment name (validate_fragments.go:84-102); the flag says that
-    a search ran out of fuel. -/
-def fragmentCycleErrors (D : Document) : List Err × Bool :=
-  let names := dedup ((fragsOf D).map (·.name))
-  let fuel := (D.flatMap fun d => spreadNamesSet (defSel d)).length + names.length + 2
-  names.foldl (fun (st : List Err × Bool) n =>
-    match cycleSearch D n fuel [n] 0 [] with
-    | none => (st.1, true)
+/-- The inner loop of the search (validate_fragments.go:89-97) over the dependencies of
+    `toVisit[i]`: state = (toVisit, encountered, cycleFound). -/
+def visitDeps (name : String) : List String × List String × Bool → List String → List String × List String × Bool
+  | st, [] => st
+  | (tv, enc, found), dep :: rest =>
+    if found then (tv, enc, found)
+    else if enc.contains dep then visitDeps name (tv, enc, false) rest
+    else if dep = name then (tv, enc, true)
+    else visitDeps name (tv ++ [dep], enc ++ [dep], false) rest
+
+/-- The breadth-first search of validateFragmentSpreads (validate_fragments.go:84-98): `i` walks
+    `toVisit`; returns `cycleFound`, or `none` when the fuel is exhausted. -/
+def cycleSearch (D : Document) (name : String) : Nat → List String → Nat → List String → Option Bool
+  | 0, _, _, _ => none
+  | fuel + 1, toVisit, i, encountered =>
+    match toVisit[i]? with
+    | none => some false
+    | some cur =>
+      match visitDeps name (toVisit, encountered, false) (directDeps D cur) with
+      | (_, _, true) => some true
+      | (toVisit', enc', false) => cycleSearch D name fuel toVisit' (i + 1) enc'
+
+def cycleFuel (D : Document) : Nat := (D.flatMap fun d => spreadNamesSet (defSel d)).length + 2
+
+/-- The loop over the fragment names (validate_fragments.go:84-102). -/
+def cycleLoop (D : Document) : List String → List Err × Bool
+  | [] => ([], false)
+  | n :: rest =>
+    let (r, fo) := cycleLoop D rest
+    match cycleSearch D n (cycleFuel D) [n] 0 [] with
+    | none => (r, true)
     | some true =>
       (match fragLast D n with
-       | some f => (st.1 ++ [newError f.pos "fragment cycle detected"], st.2)
-       | none => st)
-    | some false => st) ([], false)
+       | some f => (newError f.pos "fragment cycle detected" :: r, fo)
+       | none => (r, fo))
+    | some false => (r, fo)
+
+/-- The cycle search for every fragment name; the flag says that a search ran out of fuel. -/
+def fragmentCycleErrors (D : Document) : List Err × Bool :=
+  cycleLoop D (dedup ((fragsOf D).map (·.name)))
 
 /-- The last inspection of validateFragmentSpreads (validate_fragments.go:131-153). -/
 def spreadChecks (S : Schema) (D : Document) : List Err :=
